@@ -127,6 +127,14 @@ func (s *Service) Handshake(ctx context.Context, stream p2p.Stream, peerMultiadd
 		return nil, fmt.Errorf("read synack message: %w", err)
 	}
 
+	// the sub-messages are optional on the wire: a peer may leave them out
+	if resp.Syn == nil {
+		return nil, ErrInvalidSyn
+	}
+	if resp.Ack == nil || resp.Ack.Address == nil {
+		return nil, ErrInvalidAck
+	}
+
 	observedUnderlay, err := ma.NewMultiaddrBytes(resp.Syn.ObservedUnderlay)
 	if err != nil {
 		return nil, ErrInvalidSyn
@@ -270,6 +278,10 @@ func (s *Service) Handle(ctx context.Context, stream p2p.Stream, remoteMultiaddr
 
 	if ack.NetworkID != s.networkID {
 		return nil, ErrNetworkIDIncompatible
+	}
+
+	if ack.Address == nil {
+		return nil, ErrInvalidAck
 	}
 
 	mode, err := aurora.NewModelFromBytes(ack.NodeMode)
